@@ -2,6 +2,9 @@ package main
 
 import (
 	"fmt"
+	"go/types"
+	"reflect"
+	"strings"
 
 	"golang.org/x/tools/go/ssa"
 )
@@ -26,8 +29,54 @@ func init() {
 			if p, ok := v.(VPtr); ok && p.O != nil {
 				v = p.load()
 			}
-			blob := VOpaque{Kind: "json", Data: []interface{}{typ, ex.deepCopy(v)}}
+			var tobj types.Type
+			if iv, ok := a[0].(VIface); ok {
+				tobj = iv.Typ
+			}
+			blob := VOpaque{Kind: "json", Data: []interface{}{typ, ex.deepCopy(v), tobj, map[int]bool(nil)}}
 			return VTuple{blob, nilErr()}
+		}
+		// ndJSONDrop(blob, key): the JSON object without the given top-level key (an extension a peer may send:
+		// json.Unmarshal leaves the destination field of an absent key untouched)
+		m["nd:ndJSONDrop"] = func(ex *Exec, fr *frame, cc *ssa.CallCommon, a []Value) Value {
+			x, ok := a[0].(VOpaque)
+			if !ok || x.Kind != "json" {
+				panic(unsupported{"ndJSONDrop of a non-JSON value"})
+			}
+			d := x.Data.([]interface{})
+			tobj, _ := d[2].(types.Type)
+			if tobj == nil {
+				panic(unsupported{"ndJSONDrop: unknown type"})
+			}
+			if pt, ok := tobj.Underlying().(*types.Pointer); ok {
+				tobj = pt.Elem()
+			}
+			st, ok := tobj.Underlying().(*types.Struct)
+			if !ok {
+				panic(unsupported{"ndJSONDrop of a non-struct"})
+			}
+			key := cstr(a[1])
+			omit := map[int]bool{}
+			for k, v := range d[3].(map[int]bool) {
+				omit[k] = v
+			}
+			found := false
+			for i := 0; i < st.NumFields(); i++ {
+				name := st.Field(i).Name()
+				if tag := reflect.StructTag(st.Tag(i)).Get("json"); tag != "" {
+					if n := strings.Split(tag, ",")[0]; n != "" {
+						name = n
+					}
+				}
+				if name == key {
+					omit[i] = true
+					found = true
+				}
+			}
+			if !found {
+				panic(unsupported{"ndJSONDrop: no field " + key})
+			}
+			return VOpaque{Kind: "json", Data: []interface{}{d[0], d[1], d[2], omit}}
 		}
 		m["encoding/json.Unmarshal"] = func(ex *Exec, fr *frame, cc *ssa.CallCommon, a []Value) Value {
 			dst, ok := a[1].(VIface)
@@ -42,7 +91,26 @@ func init() {
 			case VOpaque:
 				if x.Kind == "json" {
 					d := x.Data.([]interface{})
-					p.store(ex.deepCopy(d[1].(Value)))
+					omit, _ := d[3].(map[int]bool)
+					if len(omit) == 0 {
+						p.store(ex.deepCopy(d[1].(Value)))
+						return nilErr()
+					}
+					// absent keys leave the destination's fields as they are
+					cur, ok1 := p.load().(VStruct)
+					src, ok2 := d[1].(Value).(VStruct)
+					if !ok1 || !ok2 || len(cur.F) != len(src.F) {
+						panic(unsupported{"json.Unmarshal of a sparse object into a different type"})
+					}
+					nf := make([]Value, len(cur.F))
+					for i := range nf {
+						if omit[i] {
+							nf[i] = cur.F[i]
+						} else {
+							nf[i] = ex.deepCopy(src.F[i])
+						}
+					}
+					p.store(VStruct{F: nf})
 					return nilErr()
 				}
 			case VSlice:
